@@ -171,6 +171,16 @@ class SubRerunScenario(ItemsScenario):
     # identified by the task it targets
     label_by_id = True
 
+    def __init__(self, name, prog, items_to_rerun=None, **kw):
+        super(SubRerunScenario, self).__init__(name, prog, **kw)
+        self.items_to_rerun = items_to_rerun if items_to_rerun is not None \
+            else len(self.items)
+
+    def kwargs(self):
+        d = super(SubRerunScenario, self).kwargs()
+        d['items_to_rerun'] = self.items_to_rerun
+        return d
+
     def spec(self):
         return ('checks.c12', 'SubRerunScenario', self.kwargs())
 
@@ -204,7 +214,7 @@ class SubRerunScenario(ItemsScenario):
                           if c[0] == 'rerun'))
         root = [w for w in snap['workflow_executions_v2']
                 if not w['task_execution_id']][0]
-        if n_rerun == getattr(self, 'items_to_rerun', len(self.items)) \
+        if n_rerun == self.items_to_rerun \
                 and 'rerun-before' not in \
                 ' '.join(env.W.extra.get('hist', [])):
             if root['state'] != 'SUCCESS':
@@ -284,6 +294,22 @@ def scenarios(tier):
                            max_cmds=1, only_tasks=['s'], compare_ctx=False)
     scn.items_to_rerun = 1
     jobs.append((scn, 1 if quick else 2, 60 if quick else 1200, 1))
+    # the same with a concurrency limit on the with-items task (the slot
+    # accounting must survive a child that is repaired from the inside)
+    for n, conc, o in ((2, 1, 'SE'), (2, 2, 'ES'), (3, 2, 'SSE'),
+                       (3, 2, 'ESS')):
+        prog = make_prog(n, conc, sub=True)
+        prog['tasks']['a'].pop('on-complete')
+        prog['tasks']['a']['on-success'] = ['b']
+        res = {'i%d' % k: ([o[k]] if o[k] == 'S' else ['E', 'S'])
+               for k in range(n)}
+        res['b'] = ['S']
+        scn = SubRerunScenario(
+            'items_subwf_c%d/rerun_children/%s' % (conc, o), prog,
+            items=['i%d' % k for k in range(n)], concurrency=conc,
+            results=res, menu=['rerun'], max_cmds=1, only_tasks=['s'],
+            compare_ctx=False, items_to_rerun=1)
+        jobs.append((scn, 0 if quick else 1, 60 if quick else 1200, 1))
     return jobs
 
 
